@@ -26,7 +26,7 @@ ASSUMPTIONS = [
     "when (upper+1e-7-lower)/precision is within float error of an integer either length is accepted",
     "axes with more than 1e5 points are outside the quantifier (counted skipped_big)",
 ]
-REQUIRED_COUNTERS = {"decimal_lattice_inputs": 3000, "rejected_checked": 100, "accepted_checked": 50, "double_defect": 20, "exact_multiple": 10}
+REQUIRED_COUNTERS = {"read_only_array_specifications": 300, "caller_arrays_changed_after_construction": 100, "precision_given_as_2d": 4, "unsigned_integer_specifications": 90, "coarse_steps_range_just_short_of_a_multiple": 300, "decimal_lattice_inputs": 3000, "rejected_checked": 100, "accepted_checked": 50, "double_defect": 20, "exact_multiple": 10}
 SHARDS = {"quick": 8, "thorough": 16}
 
 BVALS = [-1e6, -1.0, 0.0, 1e-9, 1.0, 1e6]
@@ -147,6 +147,12 @@ def check_accept(bounds, prec, space):
                      f"(grid has {len(g)} points, last {g[-1] if len(g) else None!r})",
                      "endpoint-tolerance-absorbed" if absorbed else None),
                 )
+    try:
+        if not np.array_equal(np.asarray(space.parameters_bounds, dtype=float), np.asarray(bounds, dtype=float)) or \
+                not np.array_equal(np.asarray(space.parameters_precision, dtype=float), np.asarray(prec, dtype=float)):
+            bad.append(f"the space reports bounds {np.asarray(space.parameters_bounds).tolist()} / precision {np.asarray(space.parameters_precision).tolist()}, not the ones it was built from")
+    except (TypeError, ValueError):
+        pass
     if not bad and space.space_size != size:
         bad.append(f"space_size {space.space_size} != product of grid lengths {size}")
     return bad, exact_multiple
@@ -175,11 +181,36 @@ def judge_input(bounds, prec, out):
         c["skipped_big"] = c.get("skipped_big", 0) + 1
         return
     out["evals"] += 1
+    import copy as _copy
+
+    arrays = [a for a in ([bounds, prec] + (list(bounds) if isinstance(bounds, list) else [])) if isinstance(a, np.ndarray)]
+    readonly = bool(arrays) and out["evals"] % 3 == 0
+    if readonly:
+        # arrays loaded from a file or taken from a frozen configuration object are read-only: validating must not need to write
+        for a in arrays:
+            a.setflags(write=False)
+        c["read_only_array_specifications"] = c.get("read_only_array_specifications", 0) + 1
+    given = _copy.deepcopy((bounds, prec))
     try:
         space = ss.SearchSpace(bounds, prec, False)
         err = None
     except Exception as e:  # noqa: BLE001
         space, err = None, e
+    try:
+        same = all(np.array_equal(np.asarray(x, dtype=object), np.asarray(y, dtype=object)) for x, y in zip(_flat(given), _flat((bounds, prec))))
+    except Exception:  # noqa: BLE001
+        same = True
+    if not same:
+        out["violations"].append({"msg": "the caller's specification was modified by SearchSpace()", "witness": {"given": given, "after": (bounds, prec)}})
+        return
+    if arrays and not readonly and err is None:
+        # the grids belong to the space: what the caller does with its own arrays afterwards does not reach them
+        for a in arrays:
+            if a.dtype.kind == "f" and a.size:
+                a += 1.0
+                a *= 3.0
+        c["caller_arrays_changed_after_construction"] = c.get("caller_arrays_changed_after_construction", 0) + 1
+        bounds, prec = given
     if exp is not None:
         c["rejected_checked"] = c.get("rejected_checked", 0) + 1
         if nd >= 2:
@@ -213,6 +244,11 @@ def judge_input(bounds, prec, out):
         out["violations"].append(v)
 
 
+def _flat(spec):
+    b, p = spec
+    return (list(b) if isinstance(b, (list, tuple)) else [b]) + [p]
+
+
 def spell(bounds, prec, how):
     if how == 3:   # tuples
         return tuple(tuple(b) for b in bounds), tuple(prec)
@@ -236,6 +272,16 @@ def run_case(desc, ctx):
             for combo in itertools.product(inner, repeat=nb):
                 for pl in ([], [0.5], [0.5, 0.0], [1.0, 1.0, 1.0]):
                     judge_input([list(c) for c in combo], list(pl), out)
+        # the precision given as a 2-D row, unsigned-integer bounds (differences wrap around in unsigned arithmetic)
+        for b2, p2 in [([[0.0, 0.0], [1.0, 1.0]], [[0.1, 0.2]]), (np.array([[0.0, 0.0], [1.0, 1.0]]), np.array([[0.1, 0.2]])),
+                       ([[0.0, 0.0, 0.0], [1.0, 1.0, 1.0]], [[0.1, 0.2, 0.3]]), ([[0.0], [1.0]], [[0.1], [0.2]])]:
+            judge_input(b2, p2, out)
+            out["counters"]["precision_given_as_2d"] = out["counters"].get("precision_given_as_2d", 0) + 1
+        for dt in (np.uint8, np.uint16, np.uint32, np.uint64):
+            for lo_, up_, p_ in [(5, 3, 1), (3, 5, 1), (3, 5, 4), (3, 5, 2), (0, 200, 7), (200, 0, 7), (7, 7, 1), (250, 3, 1), (3, 5, 0), (5, 3, 0), (0, 255, 255), (1, 255, 255)]:
+                judge_input(np.array([[lo_], [up_]], dtype=dt), np.array([p_], dtype=dt), out)
+                judge_input(np.array([[1, lo_], [4, up_]], dtype=dt), [1, p_], out)
+                out["counters"]["unsigned_integer_specifications"] = out["counters"].get("unsigned_integer_specifications", 0) + 2
         # ragged with valid-looking values, random
         for _ in range(300):
             d0, d1, dp = (int(x) for x in rng.integers(0, 4, size=3))
@@ -273,7 +319,7 @@ def run_case(desc, ctx):
             lo, up, pr = [], [], []
             for _j in range(d):
                 scale = 10.0 ** rng.integers(-6, 7)
-                style = int(rng.integers(0, 4))
+                style = int(rng.integers(0, 5))
                 npts = int(rng.choice([1, 2, 3, 7, 10, 100, 1000, 99999, int(rng.integers(1, 100000))]))
                 if style == 0:  # dyadic exact multiple
                     p = 2.0 ** int(rng.integers(-10, 10))
@@ -287,6 +333,12 @@ def run_case(desc, ctx):
                     p = float(rng.uniform(0.1, 1.0)) * scale
                     l0 = float(rng.normal()) * scale
                     u0 = l0 + p * (npts + float(rng.uniform(0.05, 0.95)))
+                elif style == 4:  # coarse step, range short of (or within the documented 1e-7 of) a whole number of steps
+                    p = float(rng.choice([10.0, 100.0, 1000.0, 1e5]))
+                    npts = int(rng.integers(1, 101))
+                    l0 = p * int(rng.integers(-3, 4))
+                    u0 = l0 + p * npts - float(rng.choice([1e-6, 3e-7, 1e-8, 5e-8 * p, 1e-9 * p]))
+                    out["counters"]["coarse_steps_range_just_short_of_a_multiple"] = out["counters"].get("coarse_steps_range_just_short_of_a_multiple", 0) + 1
                 else:  # offset far from zero relative to range
                     p = float(rng.choice([0.25, 0.1, 1 / 3])) * scale
                     l0 = float(rng.choice([-1, 1])) * scale * float(10.0 ** rng.integers(0, 5))
